@@ -37,11 +37,11 @@ T = {
  "C13-m2": ("C13", "executable builder's multiple_anonymous flag became a per-source local", "three anonymous operations, the third in a later source than the second", ""),
  "C14-m1": ("C14", "input-object cycle check follows non-null *list* links", "input cycle whose links are all outer-non-null and at least one is a non-null list", ""),
  "C14-m2": ("C14", "interface extensions de-duplicate `implements` silently", "interface + `extend interface` repeating an implements entry", "thorough tier caught it; C14 space operator 'dup-member' now also repeats implements / union members, so the quick tier does too"),
- "C15-m1": ("C15", "input cycle check only follows links that are required (non-null and without default)", "non-null input cycle in which a link has a default value", "caught by the thorough tier (k = 2 mutations); quick tier: no"),
+ "C15-m1": ("C15", "input cycle check only follows links that are required (non-null and without default)", "non-null input cycle in which a link has a default value", "thorough tier caught it; operator 'non-null-input-link-with-default' added, so the quick tier does too"),
  "C15-m2": ("C15", "pruning of unused built-in scalars skipped when a missing one is re-inserted", "validate; into_inner; drop the last Int reference and add a Float reference; validate", "C16 operation 'remove the base field' (the invariant is shared by C15 and C16; C16 reports it)"),
  "C16-m1": ("C16", "validate_schema returns early when all built-in scalars are used, skipping re-insertion", "prune Int, Float, ID; into_inner; reference all three again; validate", ""),
  "C16-m2": ("C16", "BuiltInScalars::record_type_ref returns the set-insert result", "prune; into_inner; two references to the same pruned scalar; validate", ""),
- "C17-m1": ("C17", "group_by_common_parents: abstract-parent fields merged into the first concrete group only (append drains)", "one response name under two object type conditions and on the abstract parent, conflict with a non-first concrete type", "caught by the thorough tier (k = 2); quick tier: no"),
+ "C17-m1": ("C17", "group_by_common_parents: abstract-parent fields merged into the first concrete group only (append drains)", "one response name under two object type conditions and on the abstract parent, conflict with a non-first concrete type", "thorough tier caught it; base pair b16 added, so the quick tier does too"),
  "C17-m2": ("C17", "validated_fragments set moved from per-operation to per-document", "two operations spreading the same variable-using fragment, the later one without a valid declaration", ""),
  "C18-m1": ("C18", "root_fields / all_fields end the iteration at a repeated fragment spread", "fragment spread a second time with fields reached after it", ""),
  "C18-m2": ("C18", "validate_fragment_spread returns at once for an already validated fragment (skips the spread's own directives)", "same fragment spread twice in one operation, the later spread with a directive using an undeclared variable", "C17 quick reports it (verdict); C18 thorough reports it"),
@@ -71,19 +71,19 @@ T = {
  "C30-m2": ("C30", "hand-rolled Node::make_mut loses the location on its copy path", "make_mut on a node that is shared and carries a location", ""),
  "C31-m1": ("C31", "FileId::new: compare_exchange with Err treated like Ok", "a race between two allocations plus a third allocation (3 allocations over 2 threads)", ""),
  "C31-m2": ("C31", "FileId::new accept test rewritten as `id > 1 << 63` (lets 2^63 through)", "the counter sitting exactly on 2^63", ""),
- "C32-m1": ("C32", "", "", ""),
- "C32-m2": ("C32", "", "", ""),
+ "C32-m1": ("C32", "reachable_fragment_names 'simplified' into one forward pass over the fragment definitions", "a spread chain of depth >= 3 starting at an operation (op -> F3 -> F2 -> F1); the shortest known input has 356 bytes", "NOT DETECTED: the enumerated families (short inputs, periodic inputs, <= 2 changed bytes) and the 20 000-input supplementary low-entropy sequence do not produce such a chain; reaching generator decisions that need a hundred specific bytes is outside a bounded enumeration of byte strings (DESIGN S.5)"),
+ "C32-m2": ("C32", "interface.rs try_accept_candidate: cycle guard checks the wrong direction", "interface X, some Y implementing X, then an `extend interface X` whose pick is exactly Y (147-byte input)", "C32 supplementary low-entropy sequence (sampling, labelled) reaches it; the enumerated families do not"),
  "C33-m1": ("C33", "concrete_type may pick an implementing interface for an interface position", "interface implementing another interface + a choose_index answer landing on it", ""),
 
  # ---- round 2 (sub-agents were also told what round 1 had produced for the property) ----
- "C12-r2m1": ("C12", "SchemaDefinition::extensions(): the three root-operation lists merged into one list in kind order and passed before the directive list", "two `extend schema` blocks each adding a directive and a root operation, the earlier block carrying the later kind (subscription before mutation)", ""),
- "C12-r2m2": ("C12", "Schema::to_ast skips built-in types that have no directives", "an extension of a built-in non-scalar type (`extend type __Type { extra: Int }`) with no directive on that type", ""),
- "C13-r2m1": ("C13", "SchemaDefinition::from_ast applies queued schema extensions before the definition's own root operations", "`extend schema { query: B }` before `schema { query: A }` naming the same root operation", ""),
+ "C12-r2m1": ("C12", "SchemaDefinition::extensions(): the three root-operation lists merged into one list in kind order and passed before the directive list", "two `extend schema` blocks each adding a directive and a root operation, the earlier block carrying the later kind (subscription before mutation)", "C12 focus menu 'schema-roots': a second extension with directive + root operation (added before this seed was evaluated)"),
+ "C12-r2m2": ("C12", "Schema::to_ast skips built-in types that have no directives", "an extension of a built-in non-scalar type (`extend type __Type { extra: Int }`) with no directive on that type", "C12 focus menu 'descriptions-and-built-ins': extensions of __Type / __TypeKind (added before this seed was evaluated)"),
+ "C13-r2m1": ("C13", "SchemaDefinition::from_ast applies queued schema extensions before the definition's own root operations", "`extend schema { query: B }` before `schema { query: A }` naming the same root operation", "C13 menu item `extend schema{query:R}`"),
  "C13-r2m2": ("C13", "type_extension!: an extension equal to one already queued is not queued again", "two textually identical extensions of a type, both before its definition", ""),
  "C16-r2m1": ("C16", "validate_schema inserts missing built-in scalars first and returns early when it inserted any (no pruning in that pass)", "one edit drops the last reference to a defined built-in scalar and adds a reference to a pruned one; the leftover disappears only at the next validation", ""),
  "C16-r2m2": ("C16", "BuiltInScalars table holds plain ScalarType values; a restored scalar is a new location-less node (is_built_in() false)", "prune; into_inner; reference the scalar again; validate; then look at what was restored (wrong literal accepted, scalar no longer pruned)", ""),
  "C21-r2m1": ("C21", "input-object cycle check lost the branch that skips a name already on the path", "an input object not on a non-null cycle that reaches one through required fields", ""),
- "C21-r2m2": ("C21", "get_line_column indexes bytes[index + 1] without bounds check", "source text ending in a lone CR plus a diagnostic located at EOF, rendered as JSON", ""),
+ "C21-r2m2": ("C21", "get_line_column indexes bytes[index + 1] without bounds check", "source text ending in a lone CR plus a diagnostic located at EOF, rendered as JSON", "C21 edits: every seed document cut after each token and ended by a lone CR"),
  "C24-r2m1": ("C24", "possibleTypes of an interface without implementers is null instead of []", "an interface nothing implements", ""),
  "C24-r2m2": ("C24", "__Directive.args ignores includeDeprecated and always drops deprecated arguments", "a directive definition with an argument marked @deprecated", ""),
  "C26-r2m1": ("C26", "Int result coercion uses a half-open range that excludes i32::MAX", "a resolver returning exactly 2147483647", ""),
@@ -98,6 +98,8 @@ T = {
  "C27-r2m2": ("C27", "Normal mode: completing item i is joined with fetching item i+1", "list of objects, a resolver inside a non-last item pending once, an observable lazy item producer", ""),
  "C28-r2m1": ("C28", "single value for a nested list type wrapped only once", "`[[Int]]` given `1`", ""),
  "C28-r2m2": ("C28", "unknown input-object key scan only runs if the object has more keys than the type has fields", "object with an undeclared key that omits at least as many declared fields", ""),
+ "C22-r2m1": ("C22", "DiagnosticList::sort becomes sort_unstable_by_key", "more than 20 diagnostics with two different diagnostics at the same offset (e.g. a variable that is unused and of an undefined type)", ""),
+ "C22-r2m2": ("C22", "field-merge argument check iterates the lookup index (a HashMap above 20 arguments)", "two selections with the same response key, more than 20 arguments, two conflicting arguments", ""),
  "C33-m2": ("C33", "collect_fields: a fragment spread's fields replace nothing but are not merged into an already collected key", "same composite response key twice, the later occurrence from a named fragment with an extra sub-field", ""),
 }
 
